@@ -696,6 +696,24 @@ def analysis_functions(prj: "Project", roots) -> list:
     return sorted(out, key=lambda f: f.qual)
 
 
+def effective_callers(prj: "Project", qual: str) -> set:
+    """callers of a function where a newly extracted helper (not in the baseline tree) stands for the functions calling it"""
+    from .inline import baseline_names
+    base = baseline_names()
+    out, todo, seen = set(), list(prj.callgraph.callers_of(qual)), set()
+    while todo:
+        q = todo.pop()
+        if q in seen:
+            continue
+        seen.add(q)
+        up = prj.callgraph.callers_of(q)
+        if q in base or not up:
+            out.add(q)
+        else:
+            todo += list(up)
+    return out
+
+
 def with_helpers(prj: "Project", fi) -> list:
     """fi's view plus the views of the newly extracted helpers (functions that are not part of the baseline tree)
     still called from it, transitively - the code a rule anchored in fi has to look at"""
